@@ -16,7 +16,7 @@ for d in sorted(glob.glob(os.path.join(ROOT, "seeded", "*", "meta.json"))):
                  m.get("needs_to_manifest", "").replace("|", "/").replace("\n", " ")[:200],
                  ("out of the property's scope" if r.get("out_of_scope") else "superseded by fix " + r["superseded"].get("by", "") if r.get("superseded") else "yes" if r.get("detected") else ("NO" if r else "not run")), ", ".join(k.split(":", 1)[1] if ":" in k else k for k in keys[:4])))
 out = ["# Seeded property-breaking changes", "",
-       "Written by independent sub-agents that saw only the property text (wave `b`: asked to exceed small bounds; wave `c`: told that length ladders, repeated faults and many-thread runs exist too). Each compiles, passes the pinned 185-test suite,",
+       "Written by independent sub-agents that saw only the property text (wave `b`: asked to exceed small bounds; wave `c`: told that length ladders, repeated faults and many-thread runs exist too; wave `d`: told everything the checks did by then and pointed at features, process-wide state, re-entrancy, drop order; wave `e`: after the audits; wave `f`: given the complete list of swept dimensions; `*-audit-*`: regression seeds that re-introduce a repaired defect). Each compiles, passes the pinned 185-test suite,",
        "has a demonstration that fails with it and passes without it (all re-confirmed by the main session in a scratch worktree; see `confirmed` in each meta.json),",
        "and was then run against the registered quick check with `lib/seedtest.py` (apply to /repo, run, undo).", "",
        f"{sum(1 for r in rows if r[4]=='yes')} of {sum(1 for r in rows if not r[4].startswith('superseded') and not r[4].startswith('out of'))} detected"
